@@ -37,6 +37,14 @@ def directed():
          D(b"web", [h, g], [(b"ta:80", True), (b"tb:80", True)]), D(b"web", [g], [(b"ta:80", True), (b"tb:80", True)]),
          dict(D(b"web", [h], [(b"ta:80", True), (b"tb:80", True)]), pages="bad"), rd(b"web", [(b"tc:8080", True)]),
          D(b"web", [h, g], [(b"ta:80", True), (b"tb:80", True)]), rd(b"web", [(b"tc:8080", True), (b"tx_1:80", False)])],
+        # a failing deploy one of whose targets was healthy for a moment and is out of the rotation again when the deploy gives up
+        # (beside one that never answers): nothing may keep probing either of them; the same for a rollout deploy
+        [D(b"web", [h], [(b"ta:80", True)]),
+         dict(D(b"web", [h], [(b"tf_1:80", False), (b"tn_1:80", False)]),
+              targets=[{"name": b"tf_1:80", "healthy": False, "probes": ["ok", "refused"]}, {"name": b"tn_1:80", "healthy": False}]),
+         {"op": "rollout_deploy", "name": b"web", "targets": [{"name": b"tg_1:80", "healthy": False, "probes": ["ok", "status:500"]},
+                                                             {"name": b"tm_1:80", "healthy": False}]},
+         D(b"api", [g], [(b"tb:80", True)])],
         # failing redeploys that keep the service options and change only the TARGET options (health path, buffering, timeouts):
         # the live service keeps the target options it had - seen at the next snapshot, after a restart, and by a rollout deploy
         # (whose targets get the service's target options)
